@@ -11,6 +11,11 @@ def run_case(mod, case):
         return list(out or [])
     except Violation as v:
         return [(v.signature, v.detail)]
+    except Exception as e:
+        # the real code raised on an input for which the contract promises a result (harness-side rejections are caught in the property module)
+        tb = traceback.extract_tb(e.__traceback__)
+        where = next((f"{os.path.basename(f.filename)}:{f.name}" for f in reversed(tb) if 'skmatter' in f.filename), 'harness')
+        return [(f"raises:{type(e).__name__}@{where}[{case.get('kind', '')}]", repr(e)[:300])]
 
 def main():
     ap = argparse.ArgumentParser()
